@@ -45,12 +45,24 @@ def unit_h0_guards(nb, hermitian, timeout_ms=20000):
         frag = fragment()
         ninf = 1
         kind = {}
+        defnz = {}
         blocks = {}
+
+        class SymBlock(Val):
+            def __init__(s2, name, ij):
+                super().__init__(name, ("MatrixBase",))
+                s2.ij = ij
+
+            def m_getattr(s2, e, name):
+                if name in ("is_zero_matrix", "is_zero"):
+                    return False if e.branch(defnz[s2.ij]) else None
+                return super().m_getattr(e, name)
         for i in range(nb):
             for j in range(nb):
                 z = eng.fresh(f"block_{i}{j}_is_zero", "bool")
                 sym = eng.fresh(f"block_{i}{j}_is_symbolic", "bool")
                 kind[(i, j)] = (z, sym)
+                defnz[(i, j)] = eng.fresh(f"block_{i}{j}_is_known_to_be_nonzero", "bool")     # sympy's three-valued is_zero_matrix is False
         reads = []
         warned = []
 
@@ -73,7 +85,7 @@ def unit_h0_guards(nb, hermitian, timeout_ms=20000):
                     if e.branch(z):
                         blocks[(i, j)] = ZERO
                     elif e.branch(sym):
-                        blocks[(i, j)] = Val(f"H0[{i},{j}]", ("MatrixBase",))
+                        blocks[(i, j)] = SymBlock(f"H0[{i},{j}]", (i, j))
                     else:
                         blocks[(i, j)] = Val(f"H0[{i},{j}]", ("ndarray",))
                 return blocks[(i, j)]
@@ -82,21 +94,21 @@ def unit_h0_guards(nb, hermitian, timeout_ms=20000):
         use_implicit = bool(eng.branch(eng.fresh("use_implicit", "bool")))
         env = Env(None, {"H": H(), "hermitian": hermitian, "zero_order": STup([0]), "use_implicit": use_implicit})
         relevant = [(i, j) for i in range(nb) for j in range(nb) if i != j and not (hermitian and i > j)]
-        offending = z3.Or(*[z3.And(z3.Not(kind[p][0]), z3.Not(kind[p][1])) for p in relevant]) if relevant else z3.BoolVal(False)
+        offending = z3.Or(*[z3.And(z3.Not(kind[p][0]), z3.Or(z3.Not(kind[p][1]), defnz[p])) for p in relevant]) if relevant else z3.BoolVal(False)
         all_diag_zero = z3.And(*[kind[(i, i)][0] for i in range(nb)])
         try:
             for st in frag:
                 eng.exec_stmt(st, env)
         except PyRaise as pr:
             eng.oblige("raises-only-ValueError", z3.BoolVal(pr.exc.cls == "ValueError"), detail=pr.exc.cls)
-            eng.oblige("rejects-only-a-numeric-nonzero-off-diagonal-block-or-an-all-zero-diagonal", z3.Or(offending, all_diag_zero))
+            eng.oblige("rejects-only-a-nonzero-off-diagonal-block-(numeric-or-symbolic-and-known-to-be-nonzero)-or-an-all-zero-diagonal", z3.Or(offending, all_diag_zero))
             return
-        eng.oblige("numeric-nonzero-off-diagonal-block-of-H0-is-rejected-for-every-pair-of-blocks", z3.Not(offending),
-                   detail="every pair (i, j), i != j (i < j in Hermitian mode), is inspected - the last (implicit) block included")
+        eng.oblige("nonzero-off-diagonal-block-of-H0-is-rejected-for-every-pair-of-blocks", z3.Not(offending),
+                   detail="every pair (i, j), i != j (i < j in Hermitian mode), is inspected - the last (implicit) block included; numeric blocks and symbolic blocks that sympy knows to be non-zero")
         eng.oblige("all-zero-diagonal-is-rejected", z3.Not(all_diag_zero))
         eng.oblige("every-relevant-pair-was-read", z3.BoolVal(all(p in reads for p in relevant)), detail=f"read {sorted(set(reads))}, relevant {relevant}")
         nsym = [p for p in relevant if blocks.get(p) is not None and blocks[p] is not ZERO and "MatrixBase" in getattr(blocks[p], "kinds", ())]
-        eng.oblige("symbolic-nonzero-off-diagonal-block-warns", z3.BoolVal(len(warned) == len(nsym)))
+        eng.oblige("undecided-symbolic-off-diagonal-block-warns", z3.BoolVal(len(warned) == len(nsym)), detail="one warning per symbolic block that sympy cannot decide (those known to be non-zero raise)")
     return run_unit(f"block_diagonalization:block_diagonalize/H0-guards[{nb} blocks,{'hermitian' if hermitian else 'general'}]", harness,
                     functions=[(MODULE, "block_diagonalize")], timeout_ms=timeout_ms, max_paths=20000)
 
